@@ -92,16 +92,19 @@ def shards(tier: str, seed: int) -> list:
     # an odd channel count (only possible at whole-byte depths)
     combos += [(nbits, 5, name) for nbits in (8, 32) for name in ("invert", "mask", "extract_samps", "extract_chans", "downsample", "subband", "zerodm")]
     combos += [(8, 7, "downsample")]  # factor products such as 7 x 7 = 49
+    combos += [(32, b["C"], "downsample:fractional")]  # non-integer float data (see _input)
     if tier == "quick":
         # the two remaining sub-byte depths on the reduced design (1 bit has its own bit order)
         combos += [(nbits, b["C"], name) for nbits in (1, 2) for name in TRANSFORMS]
     for nbits, Cc, name in combos:
+        name, _, variant = name.partition(":")
         if True:
             ps = _params(name, nbits, Cc, b["N"], tier)
             # split big parameter lists for parallelism
             nchunk = max(1, len(ps) // 6)
             for i in range(0, len(ps), nchunk):
-                out.append({"nbits": nbits, "N": b["N"], "C": Cc, "transform": name, "plo": i, "phi": min(len(ps), i + nchunk), "tier": tier})
+                out.append({"nbits": nbits, "N": b["N"], "C": Cc, "transform": name, "plo": i, "phi": min(len(ps), i + nchunk), "tier": tier,
+                            **({"variant": variant} if variant else {})})
     return out
 
 
@@ -124,7 +127,13 @@ def _design(N: int, tier: str):
     return pts
 
 
-def _input(nbits: int, N: int, C: int, transform: str, seed: int) -> np.ndarray:
+def _input(nbits: int, N: int, C: int, transform: str, seed: int, variant: str | None = None) -> np.ndarray:
+    if variant == "fractional":
+        # non-integer float samples of mixed sign and a dynamic range of 1e4 (sums are no longer exact: compared within the float32 bound)
+        h = fx.label_data(N, C, 8, seed).astype(np.float64)
+        X = (h * 0.37 + 0.123) * np.where((h.astype(np.int64) % 3) == 0, -1.0, 1.0)
+        X[::4, ::3] *= 1e2
+        return X.astype(np.float32)
     if C == 7:
         # mostly constant rows: block sums are exact multiples of the factor product
         X = fx.label_data(N, C, nbits, seed)
@@ -211,7 +220,8 @@ def _expected(name, p, Y, nbits, C, delays):
         if nbits < 32:
             Z = np.floor(Z)
             return [(C // ff, nbits, Z, 0)]
-        return [(C // ff, nbits, Z, 1e-6)]
+        # float32 bound relative to the largest input (a mean in float32 cannot be asked to resolve cancellation below eps32 * max|x|)
+        return [(C // ff, nbits, Z, max(1e-6, 8 * float(np.finfo(np.float32).eps) * float(np.max(np.abs(Y)))) if np.any(Y != np.round(Y)) else 1e-6)]
     if name == "subband":
         dm, nsub = p
         d = delays[dm]
@@ -270,7 +280,7 @@ def run_shard(shard: dict, ctx, res, only=None) -> None:
 
     wd = ctx.workdir("c07")
     nbits, N, C, name = shard["nbits"], shard["N"], shard["C"], shard["transform"]
-    X = _input(nbits, N, C, name, ctx.seed)
+    X = _input(nbits, N, C, name, ctx.seed, shard.get("variant"))
     paths = fx.make_fileset(wd, X, nbits, [N], fch1=1500.0, foff=-50.0, tsamp=1e-3)
     fil = FilReader(paths)
     delays = {dm: np.asarray(fil.header.get_dmdelays(dm)).astype(int) for dm in DMS}
@@ -342,9 +352,9 @@ def _check_outputs(name, outs, exp, res, case, site, p) -> bool:
             good = np.all(np.abs(arr - Z) <= tol + 1e-3)
             res.maximum("zerodm_abs_dev", float(np.max(np.abs(arr - Z))) if arr.size else 0.0)
         else:
-            good = np.allclose(arr, Z, rtol=tol, atol=tol)
+            good = np.allclose(arr, Z, rtol=min(tol, 1e-6), atol=tol)
         if not good:
-            bad = np.argwhere(~np.isclose(arr, Z, rtol=max(tol, 0) if tol < 1 else 0, atol=tol + (1e-3 if tol >= 1 else 0)))[:1].tolist()
+            bad = np.argwhere(~np.isclose(arr, Z, rtol=min(tol, 1e-6) if tol < 1 else 0, atol=tol + (1e-3 if tol >= 1 else 0)))[:1].tolist()
             res.violation({"site": site, "symptom": "wrong values"}, case,
                           f"params={p} first differing [sample,chan]={bad}; got {arr[:3].tolist()} want {Z[:3].tolist()}")
             return False
